@@ -10,10 +10,18 @@
     decoded short name, by topic-ID type;
   * `c01_drop`: when the topic ID denotes nothing (or an unusable name) nothing is forwarded —
     the log is unchanged and the session is failed.
+  * **all runs** (`Lemmas/GwPub.lean`: the frame `F1` carried through every model function):
+    `c01_publish_only_for_publish_datagram` — in ANY reachable state, handling ANY event that is not a
+    datagram decoding to PUBLISH (every other datagram, broker packets, every timer and retransmission
+    on the way, EOF, shutdown, the session end) writes NO MQTT PUBLISH; `c01_at_most_one_per_datagram` —
+    a PUBLISH datagram adds at most one; `c01_publishes_bounded` — over any run the MQTT PUBLISH packets
+    written are at most as many as the PUBLISH datagrams received ("exactly one", never repeated, never
+    invented: `c01_forward` says which one).
   The monitor `Spec.c01` checks the same statement on the implementation's own traces, and
   the correspondence suite ties the model to the code.
 -/
 import Bisquitt.Lemmas.GwRun
+import Bisquitt.Lemmas.GwPub
 import Bisquitt.Spec.Gateway
 
 namespace Bisquitt.Gw
@@ -88,5 +96,237 @@ theorem c01_drop (g : Gw) (dup : Bool) (q : UInt8) (r : Bool) (tit : UInt8) (tid
       · simp [h1]
     simp only [hc, if_true]
     simp [fail, alive]; split <;> simp_all
+
+end Bisquitt.Gw
+
+namespace Bisquitt.Gw
+open Bisquitt Gw
+
+/-! ## every run: an MQTT PUBLISH only for a PUBLISH datagram, at most one each -/
+
+theorem F1.stopTimers (g : Gw) : F1 0 g g.stopTimers := by
+  refine ⟨fun hA => ⟨?_, [], rfl, Nat.le_refl _⟩⟩
+  intro x hx
+  obtain ⟨y, hy, rfl⟩ := List.mem_map.mp hx
+  exact hA y hy
+
+theorem F1.finishSession (g : Gw) : F1 0 g g.finishSession := by
+  unfold Gw.finishSession
+  split
+  · split
+    · exact F1.refl g
+    · unfold Gw.shutdownDisconnect Gw.emitEnd
+      have h1 : ∀ x : Gw, F1 0 x (if x.st = .active ∨ x.st = .awake then x.emit (.sn (encode (.disconnect 0))) else x) := by
+        intro x; split
+        · exact F1.emit x _ rfl
+        · exact F1.refl x
+      have h2 : ∀ x : Gw, F1 0 x ((x.emit (.ended x.endCls)).emit .mqClose) := fun x => (F1.emit x _ rfl).trans (F1.emit _ _ rfl)
+      exact (((F1.setNow g _).trans (h1 _)).trans (h2 _)).trans (F1.stopTimers _)
+  · exact F1.refl g
+
+theorem F1.advance : ∀ (fuel : Nat) (g : Gw) (t : Nat), F1 0 g (advance fuel g t) := by
+  intro fuel
+  induction fuel with
+  | zero => intro g t; exact F1.setNow g _
+  | succ n ih =>
+    intro g t
+    unfold Gw.advance
+    split
+    · exact (F1.finishSession g).trans (F1.setNow _ _)
+    · split
+      · exact ((F1.fireDue g _).trans (F1.finishSession _)).trans (ih _ t)
+      · exact F1.setNow g _
+
+theorem F1.sample (g : Gw) : F1 0 g g.sample := by
+  unfold Gw.sample Gw.sampleBuf Gw.sampleReg Gw.sampleState
+  have e : ∀ (x y : Gw) (o : Out), isMqPublish (y.now, o) = false → y.outs = x.outs → y.txs = x.txs →
+      F1 0 x (y.emit o) := fun x y o ho hou ht => (F1.of_eq hou ht).trans (F1.emit y o ho)
+  split <;> split <;> split <;>
+    first
+    | exact F1.refl g
+    | exact (e _ _ _ rfl rfl rfl)
+    | exact (e _ _ _ rfl rfl rfl).trans (e _ _ _ rfl rfl rfl)
+    | exact ((e _ _ _ rfl rfl rfl).trans (e _ _ _ rfl rfl rfl)).trans (e _ _ _ rfl rfl rfl)
+
+/-- what a client packet may add: a PUBLISH is forwarded once -/
+def pubBudget : Pkt → Nat | .publish .. => 1 | _ => 0
+
+theorem F1.handleSn (g : Gw) (p : Pkt) : F1 (pubBudget p) g (g.handleSn p) := by
+  unfold Gw.handleSn
+  split
+  · exact (F1.fail g _).mono (Nat.zero_le _)
+  · split
+    · exact F1.handleConnect g _ _ _ _
+    · split
+      · exact F1.connAuth g _ _ _ _ _
+      · exact F1.refl g
+    · split
+      · exact F1.connWillTopic g _ _ _ _ _ _
+      · exact F1.refl g
+    · split
+      · exact F1.connWillMsg g _ _ _ _
+      · exact F1.refl g
+    · exact F1.handleRegister g _ _
+    · exact F1.handleClientPublish g _ _ _ _ _ _ _
+    · exact F1.mqttSend g _ rfl
+    · exact F1.handleSubscribe g _ _ _ _ _ _
+    · exact F1.handleUnsubscribe g _ _ _ _
+    · exact F1.handlePingreq g
+    · exact F1.handleDisconnect g _
+    · split
+      · split
+        · exact F1.bpRegack g _ _ _ _ _ _
+        · exact F1.refl g
+      · exact F1.refl g
+    · split
+      · split
+        · split
+          · exact F1.refl g
+          · split
+            · exact F1.finishTx g _
+            · exact F1.proceedMQ g _ _ _ rfl
+        · exact F1.refl g
+      · exact F1.refl g
+    · split
+      · split
+        · split
+          · exact F1.refl g
+          · exact F1.proceedMQ g _ _ _ rfl
+        · exact F1.refl g
+      · exact F1.refl g
+    · split
+      · split
+        · split
+          · exact F1.refl g
+          · exact F1.proceedMQ g _ _ _ rfl
+        · exact F1.refl g
+      · exact F1.refl g
+    · exact (F1.fail g _).mono (Nat.zero_le _)
+
+theorem F1.handleMq (g : Gw) (p : MqPkt) : F1 0 g (g.handleMq p) := by
+  unfold Gw.handleMq
+  split
+  · split
+    · exact F1.connConnack g _ _ _
+    · exact F1.refl g
+  · split
+    · split
+      · exact (F1.finishTx g _).trans (F1.snSend _ _ _)
+      · exact F1.refl g
+    · exact F1.refl g
+  · exact F1.snSend g _ _
+  · exact F1.snSend g _ _
+  · split
+    · split
+      · split
+        · split
+          · exact (F1.finishTx g _).trans (F1.snSend _ _ _)
+          · exact (F1.finishTx g _).trans (F1.snSend _ _ _)
+        · exact (F1.finishTx g _).trans (F1.fail _ _)
+      · exact F1.refl g
+    · exact F1.refl g
+  · exact F1.snSend g _ _
+  · split
+    · exact F1.refl g
+    · exact F1.snSend g _ _
+  · exact F1.handleBrokerPublish g _ _ _ _ _ _
+  · split
+    · split
+      · split
+        · exact F1.refl g
+        · exact F1.proceedSN g _ _ _
+      · exact F1.refl g
+    · exact F1.refl g
+  · exact F1.fail g _
+
+/-- 1 for a datagram that decodes as a PUBLISH, 0 for every other event -/
+def publishDatagram : Event → Nat
+  | .sn bytes => match decode (bytes.take Gen.MaxPacketLen) with
+    | .ok (_, p) => pubBudget p
+    | _ => 0
+  | _ => 0
+
+theorem F1.handleEvent (g : Gw) (ev : Event) : F1 (publishDatagram ev) g (g.handleEvent ev) := by
+  unfold Gw.handleEvent
+  split
+  · split
+    · rename_i hd p hdec
+      simp only [publishDatagram, hdec]
+      exact F1.handleSn g p
+    · exact (F1.fail g _).mono (Nat.zero_le _)
+  · exact F1.handleMq g _
+  · exact F1.fail g _
+  · split <;> exact F1.fail g _
+  · exact F1.fail g _
+  · exact F1.refl g
+
+theorem F1.step (g : Gw) (t : Nat) (ev : Event) : F1 (publishDatagram ev) g (g.step t ev) := by
+  unfold Gw.step Gw.stepCore Gw.deliver
+  have q1 := F1.advance 100000 g t
+  split
+  · exact ((q1.trans (F1.finishSession _)).trans (F1.sample _)).mono (Nat.zero_le _)
+  · have q2 := F1.handleEvent (Gw.advance 100000 g t) ev
+    exact ((q1.before q2).after (((F1.advance 100000 _ t).trans (F1.finishSession _)).trans (F1.sample _)))
+
+theorem allNoPub_init (cfg : Cfg) (a b : UInt16) : AllNoPub (Gw.init cfg a b) := by
+  intro t ht; simp [Gw.init] at ht
+
+theorem allNoPub_run (cfg : Cfg) (a b : UInt16) (evs : List (Nat × Event)) : AllNoPub ((Gw.init cfg a b).run evs) := by
+  have gen : ∀ (evs : List (Nat × Event)) (g : Gw), AllNoPub g →
+      AllNoPub (evs.foldl (fun g (te : Nat × Event) => g.step te.1 te.2) g) := by
+    intro evs
+    induction evs with
+    | nil => intro g h; exact h
+    | cons e rest ih => intro g h; simp only [List.foldl_cons]; exact ih _ ((F1.step g e.1 e.2).inv h)
+  exact gen evs _ (allNoPub_init cfg a b)
+
+/-- **C01 (ALL runs).** In any reachable state, an event that is not a PUBLISH datagram of the client —
+    any other datagram, any broker packet, every timer and retransmission fired on the way, EOF, shutdown,
+    the end of the session — writes no MQTT PUBLISH to the broker. -/
+theorem c01_publish_only_for_publish_datagram (cfg : Cfg) (a b : UInt16) (hist : List (Nat × Event)) (t : Nat) (ev : Event)
+    (hev : publishDatagram ev = 0) :
+    mqPublishes (((Gw.init cfg a b).run hist).step t ev) = mqPublishes ((Gw.init cfg a b).run hist) := by
+  have h := F1.step ((Gw.init cfg a b).run hist) t ev
+  rw [hev] at h
+  exact h.same (allNoPub_run cfg a b hist)
+
+/-- **C01 (ALL runs).** A PUBLISH datagram adds at most one MQTT PUBLISH (`c01_forward`: which one). -/
+theorem c01_at_most_one_per_datagram (cfg : Cfg) (a b : UInt16) (hist : List (Nat × Event)) (t : Nat) (ev : Event) :
+    ∃ new, mqPublishes (((Gw.init cfg a b).run hist).step t ev) = new ++ mqPublishes ((Gw.init cfg a b).run hist) ∧
+      new.length ≤ 1 := by
+  obtain ⟨_, new, e, l⟩ := (F1.step ((Gw.init cfg a b).run hist) t ev).keep (allNoPub_run cfg a b hist)
+  refine ⟨new, e, Nat.le_trans l ?_⟩
+  unfold publishDatagram
+  split
+  · split
+    · rename_i p _; cases p <;> simp [pubBudget]
+    · exact Nat.zero_le _
+  · exact Nat.zero_le _
+
+/-- **C01 (ALL runs).** Over any run the MQTT PUBLISH packets written are at most as many as the PUBLISH
+    datagrams received. -/
+theorem c01_publishes_bounded (cfg : Cfg) (a b : UInt16) (evs : List (Nat × Event)) :
+    (mqPublishes ((Gw.init cfg a b).run evs)).length ≤ (evs.map fun e => publishDatagram e.2).sum := by
+  have gen : ∀ (evs : List (Nat × Event)) (g : Gw), AllNoPub g →
+      (mqPublishes (evs.foldl (fun g (te : Nat × Event) => g.step te.1 te.2) g)).length ≤
+        (mqPublishes g).length + (evs.map fun e => publishDatagram e.2).sum := by
+    intro evs
+    induction evs with
+    | nil => intro g _; simp
+    | cons e rest ih =>
+      intro g hA
+      simp only [List.foldl_cons, List.map_cons, List.sum_cons]
+      obtain ⟨hA', new, e1, l1⟩ := (F1.step g e.1 e.2).keep hA
+      have := ih _ hA'
+      rw [e1, List.length_append] at this
+      omega
+  have h : (mqPublishes ((Gw.init cfg a b).run evs)).length ≤
+      (mqPublishes (Gw.init cfg a b)).length + (evs.map fun e => publishDatagram e.2).sum := gen evs _ (allNoPub_init cfg a b)
+  have h0 : (mqPublishes (Gw.init cfg a b)).length = 0 := by simp [mqPublishes, Gw.init]
+  omega
+
+/-- non-vacuity: a PUBLISH datagram counts, a PINGREQ does not -/
+example : publishDatagram (.sn (encode (.publish false 1 false 0 1 2 [0x61]))) = 1 ∧
+    publishDatagram (.sn (encode (.pingreq []))) = 0 := by decide
 
 end Bisquitt.Gw
